@@ -95,3 +95,1004 @@ Proof.
   - replace (i + 0) with i by lia. lia.
   - specialize (IH c (S i)). replace (S i + c) with (i + S c) in IH by lia. lia.
 Qed.
+
+Definition is_ended (st : cst) : bool := match st with CEnded => true | _ => false end.
+
+(* releasing the held connection: a held CEnded entry becomes a live handler *)
+Lemma count_live_release : forall p c, holder p = Some c -> forall l i,
+  count_live SNone i l
+  = count_live p i l + (if Nat.leb i c then b2n (is_ended (nth (c - i) l CRefused)) else 0).
+Proof.
+  intros p c Hp l. induction l as [|st r IH]; intro i.
+  - rewrite !count_live_nil. destruct (Nat.leb i c); auto. destruct (c - i); reflexivity.
+  - rewrite !count_live_cons, IH.
+    assert (Hh : live_handler SNone i st = if is_ended st then true else live_handler p i st).
+    { destruct st; simpl; auto. }
+    assert (He : is_ended st = true -> live_handler p i st = negb (Nat.eqb i c)).
+    { destruct st; simpl; try discriminate. intros _.
+      destruct p; simpl in Hp; try discriminate; inversion Hp; subst; reflexivity. }
+    destruct (Nat.leb_spec i c) as [L|L]; destruct (Nat.leb_spec (S i) c) as [L'|L']; try lia.
+    + replace (c - i) with (S (c - S i)) by lia. simpl nth.
+      rewrite Hh. destruct (is_ended st) eqn:E; [|simpl; lia].
+      rewrite (He eq_refl). destruct (Nat.eqb_spec i c); [lia|]. simpl. lia.
+    + assert (i = c) by lia. subst i. rewrite Nat.sub_diag. simpl nth.
+      rewrite Hh. destruct (is_ended st) eqn:E; simpl; [|lia].
+      rewrite (He eq_refl). rewrite Nat.eqb_refl. simpl. lia.
+    + rewrite Hh. destruct (is_ended st) eqn:E; [|simpl; lia].
+      rewrite (He eq_refl). destruct (Nat.eqb_spec i c); [lia|]. simpl. lia.
+Qed.
+
+Lemma count_live_pos : forall p l i, 0 < count_live p i l ->
+  exists k, k < length l /\ live_handler p (i + k) (nth k l CRefused) = true.
+Proof.
+  intros p l. induction l as [|st r IH]; intros i H.
+  - rewrite count_live_nil in H. lia.
+  - rewrite count_live_cons in H. destruct (live_handler p i st) eqn:E.
+    + exists 0. simpl. rewrite Nat.add_0_r. split; [lia|auto].
+    + simpl in H. destruct (IH _ H) as [k [Hk Hl]]. exists (S k). simpl. split; [lia|].
+      replace (i + S k) with (S i + k) by lia. exact Hl.
+Qed.
+
+Lemma count_live_zero : forall p l i, count_live p i l = 0 ->
+  forall k, k < length l -> live_handler p (i + k) (nth k l CRefused) = false.
+Proof.
+  intros p l. induction l as [|st r IH]; intros i H k Hk; simpl in Hk; [lia|].
+  rewrite count_live_cons in H. destruct k as [|k]; simpl nth.
+  - rewrite Nat.add_0_r. destruct (live_handler p i st); simpl in H; [lia|auto].
+  - replace (i + S k) with (S i + k) by lia. apply IH; [|lia].
+    destruct (live_handler p i st); simpl in H; lia.
+Qed.
+
+(* ---------- dropping a backlog ---------- *)
+Definition drop_all (q : list nat) (cs : list cst) : list cst :=
+  fold_left (fun cs c => set_nth c CDropped cs) q cs.
+
+Lemma length_drop_all : forall q cs, length (drop_all q cs) = length cs.
+Proof.
+  intro q. induction q as [|a q IH]; intro cs; simpl; auto.
+  unfold drop_all in *. simpl. rewrite IH. apply length_set_nth.
+Qed.
+
+Lemma nth_drop_all_notin : forall q cs c d, ~ In c q -> nth c (drop_all q cs) d = nth c cs d.
+Proof.
+  intro q. induction q as [|a q IH]; intros cs c d Hn; simpl; auto.
+  unfold drop_all in *. simpl. rewrite IH.
+  - apply nth_set_nth_neq. intro E. apply Hn. left. auto.
+  - intro Hi. apply Hn. right. auto.
+Qed.
+
+Lemma nth_drop_all_in : forall q cs c d, In c q -> c < length cs -> nth c (drop_all q cs) d = CDropped.
+Proof.
+  intro q. induction q as [|a q IH]; intros cs c d Hi Hc; simpl in Hi; [contradiction|].
+  unfold drop_all in *. simpl.
+  destruct (in_dec Nat.eq_dec c q) as [Hq|Hq].
+  - apply IH; auto. rewrite length_set_nth. auto.
+  - fold (drop_all q (set_nth a CDropped cs)). rewrite nth_drop_all_notin by auto.
+    destruct Hi as [E|Hi]; [|contradiction]. subst a. apply nth_set_nth_eq. auto.
+Qed.
+
+Lemma count_live_drop_all : forall p q cs i,
+  (forall c, In c q -> nth c cs CRefused = CQueued \/ nth c cs CRefused = CDropped) ->
+  count_live p i (drop_all q cs) = count_live p i cs.
+Proof.
+  intros p q. induction q as [|a q IH]; intros cs i H; [reflexivity|].
+  unfold drop_all in *. simpl. rewrite IH.
+  - destruct (Nat.lt_ge_cases a (length cs)) as [L|L].
+    + pose proof (count_live_set p CDropped cs a i L) as E.
+      destruct (H a (or_introl eq_refl)) as [Ha|Ha]; rewrite Ha in E; simpl in E; lia.
+    + rewrite set_nth_ge; auto.
+  - intros c Hc. rewrite nth_set_nth. destruct (Nat.eqb a c); [|apply H; right; auto].
+    destruct (Nat.ltb a (length cs)); [right; auto|apply H; right; auto].
+Qed.
+
+(* ---------- the backlog invariant, on the raw components ---------- *)
+Definition dobj : lobj := mkLobj false [].
+Definition qof (os : list lobj) (i : nat) : list nat := lo_queue (nth i os dobj).
+Definition oopen (os : list lobj) (i : nat) : bool := lo_open (nth i os dobj).
+
+Record qinv (os : list lobj) (cs : list cst) : Prop := mkQinv {
+  q_st : forall i c, In c (qof os i) -> nth c cs CRefused = CQueued;
+  q_nodup : forall i, NoDup (qof os i);
+  q_disj : forall i j c, In c (qof os i) -> In c (qof os j) -> i = j;
+  q_closed : forall i, oopen os i = false -> qof os i = [];
+  q_ex : forall c, nth c cs CRefused = CQueued -> exists i, In c (qof os i) }.
+
+Lemma nth_lt_of_ne_default : forall A (l : list A) c d, nth c l d <> d -> c < length l.
+Proof.
+  intros A l c d H. destruct (Nat.lt_ge_cases c (length l)) as [L|L]; auto.
+  rewrite nth_overflow in H by auto. congruence.
+Qed.
+
+Lemma queued_lt : forall cs c, nth c cs CRefused = CQueued -> c < length cs.
+Proof. intros cs c H. apply nth_lt_of_ne_default with (d := CRefused). congruence. Qed.
+
+Lemma oopen_lt : forall os i, oopen os i = true -> i < length os.
+Proof.
+  intros os i H. unfold oopen in H. destruct (Nat.lt_ge_cases i (length os)) as [L|L]; auto.
+  rewrite nth_overflow in H by auto. discriminate.
+Qed.
+
+Lemma qof_set : forall os i o j,
+  qof (set_nth i o os) j = if Nat.eqb i j then (if Nat.ltb i (length os) then lo_queue o else qof os j) else qof os j.
+Proof.
+  intros os i o j. unfold qof. rewrite nth_set_nth.
+  destruct (Nat.eqb i j); auto. destruct (Nat.ltb i (length os)); auto.
+Qed.
+
+Lemma oopen_set : forall os i o j,
+  oopen (set_nth i o os) j = if Nat.eqb i j then (if Nat.ltb i (length os) then lo_open o else oopen os j) else oopen os j.
+Proof.
+  intros os i o j. unfold oopen. rewrite nth_set_nth.
+  destruct (Nat.eqb i j); auto. destruct (Nat.ltb i (length os)); auto.
+Qed.
+
+Lemma nth_app_new : forall A (l : list A) x d j,
+  nth j (l ++ [x]) d = if Nat.ltb j (length l) then nth j l d else if Nat.eqb j (length l) then x else d.
+Proof.
+  intros A l x d j. destruct (Nat.ltb_spec j (length l)) as [L|L].
+  - apply app_nth1. auto.
+  - rewrite app_nth2 by auto. destruct (Nat.eqb_spec j (length l)) as [E|E].
+    + rewrite E, Nat.sub_diag. reflexivity.
+    + destruct (j - length l) as [|k] eqn:K; [lia|]. simpl. destruct k; reflexivity.
+Qed.
+
+Lemma qof_new : forall os i, qof (os ++ [mkLobj true []]) i = qof os i.
+Proof.
+  intros os i. unfold qof. rewrite nth_app_new.
+  destruct (Nat.ltb_spec i (length os)) as [L|L]; auto.
+  rewrite (nth_overflow os) by auto. destruct (Nat.eqb i (length os)); reflexivity.
+Qed.
+
+Lemma oopen_new : forall os i,
+  oopen (os ++ [mkLobj true []]) i = if Nat.eqb i (length os) then true else oopen os i.
+Proof.
+  intros os i. unfold oopen. rewrite nth_app_new.
+  destruct (Nat.ltb_spec i (length os)) as [L|L].
+  - destruct (Nat.eqb_spec i (length os)); [lia|auto].
+  - rewrite (nth_overflow os) by auto. destruct (Nat.eqb i (length os)); reflexivity.
+Qed.
+
+Lemma qinv_new : forall os cs, qinv os cs -> qinv (os ++ [mkLobj true []]) cs.
+Proof.
+  intros os cs [H1 H2 H3 H4 H5]. constructor.
+  - intros i c. rewrite qof_new. apply H1.
+  - intro i. rewrite qof_new. apply H2.
+  - intros i j c. rewrite !qof_new. apply H3.
+  - intros i. rewrite qof_new, oopen_new. destruct (Nat.eqb_spec i (length os)) as [E|E]; [discriminate|apply H4].
+  - intros c Hc. destruct (H5 c Hc) as [i Hi]. exists i. rewrite qof_new. auto.
+Qed.
+
+Lemma nth_app_refused : forall cs c, nth c (cs ++ [CRefused]) CRefused = nth c cs CRefused.
+Proof.
+  intros cs c. rewrite nth_app_new. destruct (Nat.ltb_spec c (length cs)) as [L|L]; auto.
+  rewrite nth_overflow by auto. destruct (Nat.eqb c (length cs)); reflexivity.
+Qed.
+
+Lemma qinv_refused : forall os cs, qinv os cs -> qinv os (cs ++ [CRefused]).
+Proof.
+  intros os cs [H1 H2 H3 H4 H5]. constructor; auto.
+  - intros i c Hc. rewrite nth_app_refused. eauto.
+  - intros c Hc. rewrite nth_app_refused in Hc. auto.
+Qed.
+
+Lemma qinv_set : forall os cs c x, qinv os cs -> nth c cs CRefused <> CQueued -> x <> CQueued ->
+  qinv os (set_nth c x cs).
+Proof.
+  intros os cs c x [H1 H2 H3 H4 H5] Hc Hx. constructor; auto.
+  - intros i c' Hi. rewrite nth_set_nth_neq; eauto. intro E. subst c'. apply Hc. eauto.
+  - intros c' Hc'. rewrite nth_set_nth in Hc'. destruct (Nat.eqb_spec c c') as [E|E]; auto.
+    subst c'. destruct (Nat.ltb c (length cs)); auto. congruence.
+Qed.
+
+Lemma qinv_close : forall os cs i, qinv os cs -> qinv (set_nth i dobj os) (drop_all (qof os i) cs).
+Proof.
+  intros os cs i [H1 H2 H3 H4 H5].
+  assert (Q : forall j, qof (set_nth i dobj os) j = if Nat.eqb i j then [] else qof os j).
+  { intro j. rewrite qof_set. destruct (Nat.eqb_spec i j) as [E|E]; auto. subst j.
+    destruct (Nat.ltb_spec i (length os)) as [L|L]; auto.
+    unfold qof. rewrite nth_overflow by auto. reflexivity. }
+  constructor.
+  - intros j c. rewrite Q. destruct (Nat.eqb_spec i j) as [E|E]; [intros []|]. intro Hc.
+    rewrite nth_drop_all_notin; [eauto|]. intro Hi. apply E. eapply H3; eauto.
+  - intro j. rewrite Q. destruct (Nat.eqb i j); [constructor|apply H2].
+  - intros j k c. rewrite !Q. destruct (Nat.eqb i j); [intros []|]. destruct (Nat.eqb i k); [intros _ []|]. apply H3.
+  - intros j. rewrite Q, oopen_set. destruct (Nat.eqb i j); auto.
+  - intros c Hc. destruct (in_dec Nat.eq_dec c (qof os i)) as [Hi|Hi].
+    + rewrite nth_drop_all_in in Hc; auto; [discriminate|]. apply queued_lt. eauto.
+    + rewrite nth_drop_all_notin in Hc by auto. destruct (H5 c Hc) as [j Hj]. exists j.
+      rewrite Q. destruct (Nat.eqb_spec i j) as [E|E]; auto. subst j. contradiction.
+Qed.
+
+Lemma qinv_accept : forall os cs i c q x, qinv os cs ->
+  oopen os i = true -> qof os i = c :: q -> x <> CQueued ->
+  qinv (set_nth i (mkLobj true q) os) (set_nth c x cs).
+Proof.
+  intros os cs i c q x [H1 H2 H3 H4 H5] Ho Hq Hx.
+  pose proof (oopen_lt _ _ Ho) as Li. apply Nat.ltb_lt in Li.
+  assert (Q : forall j, qof (set_nth i (mkLobj true q) os) j = if Nat.eqb i j then q else qof os j).
+  { intro j. rewrite qof_set, Li. reflexivity. }
+  assert (Hnd : NoDup (c :: q)) by (rewrite <- Hq; apply H2).
+  assert (Hcq : ~ In c q) by (inversion Hnd; auto).
+  assert (Hsub : forall j c', In c' (if Nat.eqb i j then q else qof os j) -> In c' (qof os j) /\ c' <> c).
+  { intros j c'. destruct (Nat.eqb_spec i j) as [E|E]; intro Hc'.
+    - subst j. rewrite Hq. split; [right; auto|]. intro; subst; contradiction.
+    - split; auto. intro; subst c'. apply E. apply (H3 i j c); auto. rewrite Hq. left; auto. }
+  constructor.
+  - intros j c'. rewrite Q. intro Hc'. destruct (Hsub _ _ Hc') as [Ha Hb].
+    rewrite nth_set_nth_neq by auto. eauto.
+  - intro j. rewrite Q. destruct (Nat.eqb i j); [inversion Hnd; auto|apply H2].
+  - intros j k c'. rewrite !Q. intros Hj Hk. apply Hsub in Hj. apply Hsub in Hk. eapply H3; [apply Hj|apply Hk].
+  - intros j. rewrite Q, oopen_set, Li. destruct (Nat.eqb i j); [discriminate|apply H4].
+  - intros c' Hc'. rewrite nth_set_nth in Hc'. destruct (Nat.eqb_spec c c') as [E|E].
+    + subst c'. assert (L : c < length cs). { apply queued_lt. apply (H1 i). rewrite Hq. left; auto. }
+      apply Nat.ltb_lt in L. rewrite L in Hc'. congruence.
+    + destruct (H5 c' Hc') as [j Hj]. exists j. rewrite Q. destruct (Nat.eqb_spec i j) as [E'|E']; auto.
+      subst j. rewrite Hq in Hj. destruct Hj; [congruence|auto].
+Qed.
+
+Lemma NoDup_snoc : forall (l : list nat) n, NoDup l -> ~ In n l -> NoDup (l ++ [n]).
+Proof.
+  intros l n. induction l as [|a l IH]; intros Hd Hn; simpl.
+  - constructor; [intros []|constructor].
+  - inversion Hd as [|a' l' Ha Hl]; subst. constructor.
+    + intro Hi. apply in_app_or in Hi. destruct Hi as [Hi|[Hi|[]]]; auto. subst. apply Hn. left; auto.
+    + apply IH; auto. intro Hi. apply Hn. right; auto.
+Qed.
+
+Lemma qinv_connect : forall os cs i, qinv os cs -> oopen os i = true ->
+  qinv (set_nth i (mkLobj true (qof os i ++ [length cs])) os) (cs ++ [CQueued]).
+Proof.
+  intros os cs i [H1 H2 H3 H4 H5] Ho.
+  pose proof (oopen_lt _ _ Ho) as Li. apply Nat.ltb_lt in Li.
+  set (n := length cs).
+  assert (Q : forall j, qof (set_nth i (mkLobj true (qof os i ++ [n])) os) j
+                        = if Nat.eqb i j then qof os i ++ [n] else qof os j).
+  { intro j. rewrite qof_set, Li. reflexivity. }
+  assert (Hn : forall j, ~ In n (qof os j)).
+  { intros j Hj. apply H1 in Hj. apply queued_lt in Hj. unfold n in Hj. lia. }
+  assert (Hsub : forall j c, In c (if Nat.eqb i j then qof os i ++ [n] else qof os j) ->
+                 In c (qof os j) \/ (c = n /\ j = i)).
+  { intros j c. destruct (Nat.eqb_spec i j) as [E|E]; auto. subst j. intro Hc.
+    apply in_app_or in Hc. destruct Hc as [Hc|[Hc|[]]]; auto. }
+  constructor.
+  - intros j c. rewrite Q. intro Hc. apply Hsub in Hc. rewrite nth_app_new. destruct Hc as [Hc|[Hc _]].
+    + pose proof (H1 _ _ Hc) as Hq. pose proof (queued_lt _ _ Hq) as L. apply Nat.ltb_lt in L. rewrite L. auto.
+    + subst c. fold n. rewrite Nat.ltb_irrefl, Nat.eqb_refl. reflexivity.
+  - intro j. rewrite Q. destruct (Nat.eqb i j); [|apply H2].
+    apply NoDup_snoc; auto.
+  - intros j k c. rewrite !Q. intros Hj Hk. apply Hsub in Hj. apply Hsub in Hk.
+    destruct Hj as [Hj|[Hj Ej]], Hk as [Hk|[Hk Ek]]; subst; eauto; exfalso; eapply Hn; eauto.
+  - intro j. rewrite Q, oopen_set, Li. destruct (Nat.eqb i j); [discriminate|apply H4].
+  - intros c Hc. rewrite nth_app_new in Hc. fold n in Hc. destruct (Nat.ltb c n) eqn:L.
+    + destruct (H5 c Hc) as [j Hj]. exists j. rewrite Q. destruct (Nat.eqb_spec i j); auto.
+      subst j. apply in_or_app. auto.
+    + destruct (Nat.eqb_spec c n) as [E|E]; [|discriminate]. exists i. rewrite Q, Nat.eqb_refl.
+      apply in_or_app. right. left. auto.
+Qed.
+
+(* ---------- the "connection in hand" invariant ---------- *)
+Record hinv (p : spc) (cs : list cst) : Prop := mkHinv {
+  h_held : forall c, holder p = Some c -> nth c cs CRefused = CHeld \/ nth c cs CRefused = CEnded;
+  h_only : forall c, nth c cs CRefused = CHeld -> holder p = Some c }.
+
+Lemma hinv_pc : forall p p' cs, holder p = holder p' -> hinv p cs -> hinv p' cs.
+Proof. intros p p' cs E [H1 H2]. constructor; rewrite <- E; auto. Qed.
+
+Lemma hinv_app : forall p cs x, hinv p cs -> x <> CHeld -> hinv p (cs ++ [x]).
+Proof.
+  intros p cs x [H1 H2] Hx. constructor.
+  - intros c Hc. specialize (H1 c Hc). rewrite nth_app_new.
+    assert (L : c < length cs). { apply nth_lt_of_ne_default with (d := CRefused). destruct H1 as [E|E]; rewrite E; discriminate. }
+    apply Nat.ltb_lt in L. rewrite L. auto.
+  - intros c Hc. rewrite nth_app_new in Hc. destruct (Nat.ltb c (length cs)); auto.
+    destruct (Nat.eqb c (length cs)); [congruence|discriminate].
+Qed.
+
+Lemma hinv_accept : forall p cs c, holder p = None -> hinv p cs -> c < length cs ->
+  hinv (SGot c) (set_nth c CHeld cs).
+Proof.
+  intros p cs c Hp [H1 H2] L. constructor.
+  - simpl. intros c' E. inversion E; subst. left. apply nth_set_nth_eq. auto.
+  - simpl. intros c' Hc'. rewrite nth_set_nth in Hc'. destruct (Nat.eqb_spec c c'); [congruence|].
+    apply H2 in Hc'. congruence.
+Qed.
+
+Lemma hinv_spawn : forall p p' cs c x, holder p = Some c -> holder p' = None -> hinv p cs ->
+  x <> CHeld -> hinv p' (set_nth c x cs).
+Proof.
+  intros p p' cs c x Hp Hp' [H1 H2] Hx. constructor.
+  - rewrite Hp'. discriminate.
+  - intros c' Hc'. exfalso. rewrite nth_set_nth in Hc'. destruct (Nat.eqb_spec c c') as [E|E].
+    + subst c'. destruct (Nat.ltb_spec c (length cs)) as [L|L]; [congruence|].
+      destruct (H1 c Hp) as [E|E]; rewrite nth_overflow in E by auto; discriminate.
+    + apply H2 in Hc'. congruence.
+Qed.
+
+Lemma hinv_set : forall p cs c x, hinv p cs -> x <> CHeld ->
+  (holder p <> Some c \/ x = CEnded) -> hinv p (set_nth c x cs).
+Proof.
+  intros p cs c x [H1 H2] Hx Hc. constructor.
+  - intros c' Hc'. rewrite nth_set_nth. destruct (Nat.eqb_spec c c') as [E|E]; auto.
+    subst c'. destruct Hc as [Hc|Hc]; [congruence|]. destruct (Nat.ltb c (length cs)); auto.
+  - intros c' Hc'. rewrite nth_set_nth in Hc'. destruct (Nat.eqb_spec c c') as [E|E]; auto.
+    destruct (Nat.ltb c (length cs)); [congruence|auto].
+Qed.
+
+Lemma hinv_drop_all : forall p cs q, hinv p cs -> (forall c, In c q -> nth c cs CRefused = CQueued) ->
+  hinv p (drop_all q cs).
+Proof.
+  intros p cs q [H1 H2] Hq. constructor.
+  - intros c Hc. rewrite nth_drop_all_notin; auto. intro Hi. apply Hq in Hi.
+    destruct (H1 c Hc) as [E|E]; congruence.
+  - intros c Hc. destruct (in_dec Nat.eq_dec c q) as [Hi|Hi].
+    + rewrite nth_drop_all_in in Hc; auto; [discriminate|]. apply queued_lt. auto.
+    + rewrite nth_drop_all_notin in Hc; auto.
+Qed.
+
+(* ---------- the bundled invariant ---------- *)
+Definition is_nolis (r : ret) : bool := match r with RNoListener => true | _ => false end.
+Definition may_run (p : spc) : bool :=
+  match p with
+  | SLoopHead | SRefresh | SAccept | STimeout | SAcceptErr | SGot _ | SAdd _ | SSpawn _ => true
+  | STeardown r => negb (is_nolis r)
+  | _ => false
+  end.
+Definition needs_lis (p : spc) : bool :=
+  match p with SSetRunning => true | _ => may_run p end.
+Definition no_lis (p : spc) : bool :=
+  match p with SWait _ => true | STeardown r => is_nolis r | _ => false end.
+
+(* the current listener object, if any, is closed *)
+Definition no_open_cur (s : lstate) : Prop :=
+  forall i, listener s = Some i -> oopen (objs s) i = false.
+
+Record Inv (s : lstate) : Prop := mkInv {
+  i_q : qinv (objs s) (conns s);
+  i_h : hinv (serve s) (conns s);
+  i_lt : forall i, listener s = Some i -> i < length (objs s);
+  i_run : running s = true -> may_run (serve s) = true;
+  i_lis : needs_lis (serve s) = true -> listener s <> None;
+  i_nolis : no_lis (serve s) = true -> listener s = None;
+  i_shut : shut s = true -> no_open_cur s;
+  i_len : length (late s) = length (conns s);
+  i_late : forall c, nth c (late s) false = true -> nth c (conns s) CRefused = CRefused;
+  i_cnt : conncounter s = live s + inflight_counter (serve s);
+  i_wg : wg s = live s + inflight_wg (serve s);
+  i_idle : serve s = SNone -> live s = 0 }.
+
+Ltac fields := cbn [running listener objs conncounter wg serve tmo conns late shut result accepted_idle].
+Ltac fields_in H := cbn [running listener objs conncounter wg serve tmo conns late shut result accepted_idle] in H.
+
+Lemma Inv_init : Inv l_init.
+Proof.
+  constructor; unfold l_init, live, no_open_cur; fields; try discriminate; auto.
+  - constructor; unfold qof, oopen; intros.
+    + destruct i; simpl in *; contradiction.
+    + destruct i; simpl; constructor.
+    + destruct i; simpl in *; contradiction.
+    + destruct i; reflexivity.
+    + destruct c; simpl in *; discriminate.
+  - constructor; simpl; intros c; [discriminate|destruct c; simpl; discriminate].
+  - intros c. destruct c; simpl; discriminate.
+Qed.
+
+Lemma no_open_new : forall os, oopen (os ++ [mkLobj true []]) (length os) = true.
+Proof. intro os. rewrite oopen_new, Nat.eqb_refl. reflexivity. Qed.
+
+Lemma Inv_bind : forall s ok s', Inv s -> ok_label s (LBind ok) -> lstep s (LBind ok) = Some s' -> Inv s'.
+Proof.
+  intros s ok s' HI Hok H. simpl in H, Hok.
+  destruct (running s) eqn:Er; [inversion H; subst; auto|].
+  destruct ok; [|inversion H; subst; auto].
+  destruct Hok as [Es|Hx]; [|discriminate].
+  destruct HI as [Hq Hh Hlt Hrun Hlis Hnolis Hshut Hlen Hlate Hcnt Hwg Hidle].
+  inversion H; subst s'; clear H. constructor; unfold live, no_open_cur in *; fields; auto.
+  - apply qinv_new; auto.
+  - intros i E. inversion E; subst. rewrite app_length. simpl. lia.
+  - discriminate.
+  - discriminate.
+  - rewrite Es. discriminate.
+  - discriminate.
+Qed.
+
+Lemma Inv_startdo : forall s t s', Inv s -> lstep s (LStartDoListen t) = Some s' -> Inv s'.
+Proof.
+  intros s t s' HI H. simpl in H. destruct (serve s) eqn:Es; try discriminate.
+  destruct HI as [Hq Hh Hlt Hrun Hlis Hnolis Hshut Hlen Hlate Hcnt Hwg Hidle].
+  unfold live, no_open_cur in *. rewrite Es in *.
+  inversion H; subst s'; clear H. constructor; unfold live, no_open_cur in *; fields; auto; try discriminate.
+  - eapply hinv_pc; [|exact Hh]. reflexivity.
+  - rewrite (count_live_holder SEnter SNone) by reflexivity. exact Hcnt.
+  - rewrite (count_live_holder SEnter SNone) by reflexivity. exact Hwg.
+Qed.
+
+Lemma Inv_startlisten : forall s ok t s', Inv s -> lstep s (LStartListen ok t) = Some s' -> Inv s'.
+Proof.
+  intros s ok t s' HI H. simpl in H. destruct (serve s) eqn:Es; try discriminate.
+  destruct HI as [Hq Hh Hlt Hrun Hlis Hnolis Hshut Hlen Hlate Hcnt Hwg Hidle].
+  unfold live, no_open_cur in *. rewrite Es in *.
+  destruct (running s) eqn:Er; [specialize (Hrun eq_refl); discriminate|].
+  destruct ok; inversion H; subst s'; clear H; constructor; unfold live, no_open_cur in *; fields;
+    try rewrite Es; try rewrite Er; auto; try discriminate.
+  - apply qinv_new; auto.
+  - eapply hinv_pc; [|exact Hh]. reflexivity.
+  - intros i E. inversion E; subst. rewrite app_length. simpl. lia.
+  - rewrite (count_live_holder SSetRunning SNone) by reflexivity. exact Hcnt.
+  - rewrite (count_live_holder SSetRunning SNone) by reflexivity. exact Hwg.
+Qed.
+
+Lemma late_app : forall (lt : list bool) cs b x, length lt = length cs ->
+  (forall c, nth c lt false = true -> nth c cs CRefused = CRefused) ->
+  (b = true -> x = CRefused) ->
+  forall c, nth c (lt ++ [b]) false = true -> nth c (cs ++ [x]) CRefused = CRefused.
+Proof.
+  intros lt cs b x Hl H Hb c Hc. rewrite nth_app_new in *. rewrite <- Hl.
+  destruct (Nat.ltb c (length lt)); auto. destruct (Nat.eqb c (length lt)); auto.
+Qed.
+
+Lemma late_mono : forall (lt : list bool) cs cs',
+  (forall c, nth c lt false = true -> nth c cs CRefused = CRefused) ->
+  (forall c, nth c cs CRefused = CRefused -> nth c cs' CRefused = CRefused) ->
+  forall c, nth c lt false = true -> nth c cs' CRefused = CRefused.
+Proof. intros; auto. Qed.
+
+Lemma refused_set : forall cs c x, nth c cs CRefused <> CRefused ->
+  forall c', nth c' cs CRefused = CRefused -> nth c' (set_nth c x cs) CRefused = CRefused.
+Proof.
+  intros cs c x Hc c' Hc'. rewrite nth_set_nth_neq; auto. intro; subst; contradiction.
+Qed.
+
+Lemma refused_drop_all : forall cs q, (forall c, In c q -> nth c cs CRefused = CQueued) ->
+  forall c', nth c' cs CRefused = CRefused -> nth c' (drop_all q cs) CRefused = CRefused.
+Proof.
+  intros cs q Hq c' Hc'. rewrite nth_drop_all_notin; auto. intro Hi. apply Hq in Hi. congruence.
+Qed.
+
+Lemma Inv_connect : forall s s', Inv s -> lstep s LConnect = Some s' -> Inv s'.
+Proof.
+  intros s s' HI H. simpl in H.
+  destruct HI as [Hq Hh Hlt Hrun Hlis Hnolis Hshut Hlen Hlate Hcnt Hwg Hidle].
+  unfold live, no_open_cur in *.
+  assert (Hrefused : Inv (mkL (running s) (listener s) (objs s) (conncounter s) (wg s) (serve s) (tmo s)
+            (conns s ++ [CRefused]) (late s ++ [shut s]) (shut s) (result s) (accepted_idle s))).
+  { constructor; unfold live, no_open_cur; fields; auto.
+    - apply qinv_refused; auto.
+    - apply hinv_app; auto. discriminate.
+    - rewrite !app_length, Hlen. reflexivity.
+    - apply late_app; auto.
+    - rewrite count_live_app. simpl. lia.
+    - rewrite count_live_app. simpl. lia.
+    - intro E. rewrite count_live_app. simpl. rewrite (Hidle E). reflexivity. }
+  destruct (listener s) as [i|] eqn:El; [|inversion H; subst; exact Hrefused].
+  destruct (lo_open (get_obj s i)) eqn:Eo; [|inversion H; subst; exact Hrefused].
+  clear Hrefused. change (oopen (objs s) i = true) in Eo.
+  change (lo_queue (get_obj s i)) with (qof (objs s) i) in H.
+  inversion H; subst s'; clear H. constructor; unfold live, no_open_cur; fields; auto.
+  - apply qinv_connect; auto.
+  - apply hinv_app; auto. discriminate.
+  - intros j E. rewrite length_set_nth. auto.
+  - intros Hs j E. rewrite (Hshut Hs i eq_refl) in Eo. discriminate.
+  - rewrite !app_length, Hlen. reflexivity.
+  - apply late_app; auto. intro Hs. rewrite (Hshut Hs i eq_refl) in Eo. discriminate.
+  - rewrite count_live_app. simpl. lia.
+  - rewrite count_live_app. simpl. lia.
+  - intro E. rewrite count_live_app. simpl. rewrite (Hidle E). reflexivity.
+Qed.
+
+Lemma live_ended_free : forall p c, holder p <> Some c -> live_handler p c CEnded = true.
+Proof.
+  intros p c H. destruct p; simpl in *; auto; destruct (Nat.eqb_spec c c0); auto; subst; congruence.
+Qed.
+Lemma live_ended_held : forall p c, holder p = Some c -> live_handler p c CEnded = false.
+Proof.
+  intros p c H. destruct p; simpl in *; try discriminate; inversion H; subst; rewrite Nat.eqb_refl; auto.
+Qed.
+
+Lemma Inv_end : forall s c s', Inv s -> lstep s (LEnd c) = Some s' -> Inv s'.
+Proof.
+  intros s c s' HI H. simpl in H. unfold conn_st in H.
+  destruct HI as [Hq Hh Hlt Hrun Hlis Hnolis Hshut Hlen Hlate Hcnt Hwg Hidle].
+  unfold live, no_open_cur in *.
+  assert (Hold : nth c (conns s) CRefused = CServed \/ nth c (conns s) CRefused = CHeld).
+  { destruct (nth c (conns s) CRefused); try discriminate; auto. }
+  assert (Hs' : s' = mkL (running s) (listener s) (objs s) (conncounter s) (wg s) (serve s) (tmo s)
+                  (set_nth c CEnded (conns s)) (late s) (shut s) (result s) (accepted_idle s)).
+  { destruct Hold as [E|E]; rewrite E in H; inversion H; reflexivity. }
+  clear H. subst s'.
+  assert (L : c < length (conns s)).
+  { apply nth_lt_of_ne_default with (d := CRefused). destruct Hold as [E|E]; rewrite E; discriminate. }
+  assert (Hc : count_live (serve s) 0 (set_nth c CEnded (conns s)) = count_live (serve s) 0 (conns s)).
+  { pose proof (count_live_set (serve s) CEnded (conns s) c 0 L) as E. change (0 + c) with c in E.
+    destruct Hold as [E1|E1]; rewrite E1 in E.
+    - change (live_handler (serve s) c CServed) with true in E.
+      rewrite live_ended_free in E; [simpl in E; lia|]. intro Hp.
+      destruct (h_held _ _ Hh c Hp); congruence.
+    - change (live_handler (serve s) c CHeld) with false in E.
+      rewrite live_ended_held in E; [simpl in E; lia|]. apply (h_only _ _ Hh). auto. }
+  constructor; unfold live, no_open_cur; fields; auto; try rewrite Hc; auto.
+  - apply qinv_set; auto; [|discriminate]. destruct Hold as [E|E]; rewrite E; discriminate.
+  - apply hinv_set; auto. discriminate.
+  - rewrite length_set_nth. auto.
+  - eapply late_mono; [exact Hlate|]. apply refused_set. destruct Hold as [E|E]; rewrite E; discriminate.
+Qed.
+
+Lemma handler_exit_inv : forall s c s', lstep s (LHandlerExit c) = Some s' ->
+  conn_st s c = CEnded /\ holder (serve s) <> Some c /\
+  s' = mkL (running s) (listener s) (objs s) (pred (conncounter s)) (pred (wg s)) (serve s) (tmo s)
+           (set_nth c CGone (conns s)) (late s) (shut s) (result s) (accepted_idle s).
+Proof.
+  intros s c s' H. simpl in H. destruct (conn_st s c); try discriminate.
+  split; auto.
+  destruct (serve s) eqn:Es; simpl;
+    try (split; [discriminate|inversion H; reflexivity]);
+    destruct (Nat.eqb_spec c c0); try discriminate;
+    (split; [congruence|inversion H; reflexivity]).
+Qed.
+
+Lemma Inv_exit : forall s c s', Inv s -> lstep s (LHandlerExit c) = Some s' -> Inv s'.
+Proof.
+  intros s c s' HI H. apply handler_exit_inv in H. destruct H as [Hold [Hp Hs']]. subst s'.
+  unfold conn_st in Hold.
+  destruct HI as [Hq Hh Hlt Hrun Hlis Hnolis Hshut Hlen Hlate Hcnt Hwg Hidle].
+  unfold live, no_open_cur in *.
+  assert (L : c < length (conns s)).
+  { apply nth_lt_of_ne_default with (d := CRefused). rewrite Hold; discriminate. }
+  assert (Hc : count_live (serve s) 0 (set_nth c CGone (conns s)) + 1 = count_live (serve s) 0 (conns s)).
+  { pose proof (count_live_set (serve s) CGone (conns s) c 0 L) as E. change (0 + c) with c in E.
+    rewrite Hold in E. rewrite live_ended_free in E by auto.
+    change (live_handler (serve s) c CGone) with false in E. simpl in E. lia. }
+  constructor; unfold live, no_open_cur; fields; auto.
+  - apply qinv_set; auto; [|discriminate]. rewrite Hold; discriminate.
+  - apply hinv_set; auto. discriminate.
+  - rewrite length_set_nth. auto.
+  - eapply late_mono; [exact Hlate|]. apply refused_set. rewrite Hold; discriminate.
+  - lia.
+  - lia.
+  - intro E. specialize (Hidle E). lia.
+Qed.
+
+(* steps that only move the program counter and the counters (same connection in hand) *)
+Lemma Inv_pc : forall s rn cc w p t res ai, Inv s -> holder p = holder (serve s) ->
+  (rn = true -> may_run p = true) ->
+  (needs_lis p = true -> listener s <> None) ->
+  (no_lis p = true -> listener s = None) ->
+  cc = live s + inflight_counter p ->
+  w = live s + inflight_wg p ->
+  (p = SNone -> live s = 0) ->
+  Inv (mkL rn (listener s) (objs s) cc w p t (conns s) (late s) (shut s) res ai).
+Proof.
+  intros s rn cc w p t res ai HI Hp H1 H2 H3 H4 H5 H6.
+  destruct HI as [Hq Hh Hlt Hrun Hlis Hnolis Hshut Hlen Hlate Hcnt Hwg Hidle].
+  unfold live, no_open_cur in *.
+  constructor; unfold live, no_open_cur; fields; auto.
+  - eapply hinv_pc; [|exact Hh]. auto.
+  - rewrite (count_live_holder p (serve s)) by auto. lia.
+  - rewrite (count_live_holder p (serve s)) by auto. lia.
+  - intro E. rewrite (count_live_holder p (serve s)) by auto. auto.
+Qed.
+
+Lemma Inv_shutdown : forall s s', Inv s -> lstep s LShutdown = Some s' -> Inv s'.
+Proof.
+  intros s s' HI H. simpl in H.
+  destruct HI as [Hq Hh Hlt Hrun Hlis Hnolis Hshut Hlen Hlate Hcnt Hwg Hidle].
+  unfold live, no_open_cur in *.
+  destruct (listener s) as [i|] eqn:El.
+  - change (close_obj s i) with (set_nth i dobj (objs s), drop_all (qof (objs s) i) (conns s)) in H.
+    cbv beta iota in H. inversion H; subst s'; clear H.
+    assert (Hqs : forall c, In c (qof (objs s) i) -> nth c (conns s) CRefused = CQueued).
+    { intros c Hc. eapply q_st; eauto. }
+    constructor; unfold live, no_open_cur; fields; auto; try discriminate.
+    + apply qinv_close; auto.
+    + apply hinv_drop_all; auto.
+    + intros j E. rewrite length_set_nth. auto.
+    + intros _ j E. inversion E; subst j. rewrite oopen_set, Nat.eqb_refl.
+      pose proof (Hlt i eq_refl) as L. apply Nat.ltb_lt in L. rewrite L. reflexivity.
+    + rewrite length_drop_all. auto.
+    + eapply late_mono; [exact Hlate|]. apply refused_drop_all. auto.
+    + rewrite count_live_drop_all; auto.
+    + rewrite count_live_drop_all; auto.
+    + intro E. rewrite count_live_drop_all; auto.
+  - inversion H; subst s'; clear H.
+    constructor; unfold live, no_open_cur; fields; auto; try discriminate.
+Qed.
+
+Lemma Inv_acceptconn : forall s s', Inv s -> lstep s LAcceptConn = Some s' -> Inv s'.
+Proof.
+  intros s s' HI H. simpl in H.
+  destruct (serve s) eqn:Es; try discriminate.
+  destruct (listener s) as [i|] eqn:El; try discriminate.
+  destruct (lo_open (get_obj s i)) eqn:Eo; try discriminate.
+  destruct (lo_queue (get_obj s i)) as [|c q] eqn:Eq; try discriminate.
+  change (oopen (objs s) i = true) in Eo. change (qof (objs s) i = c :: q) in Eq.
+  destruct HI as [Hq Hh Hlt Hrun Hlis Hnolis Hshut Hlen Hlate Hcnt Hwg Hidle].
+  unfold live, no_open_cur in *. rewrite Es, El in *.
+  assert (Hc : nth c (conns s) CRefused = CQueued).
+  { apply (q_st _ _ Hq i). rewrite Eq. left; auto. }
+  pose proof (queued_lt _ _ Hc) as L.
+  inversion H; subst s'; clear H.
+  assert (Hcl : count_live (SGot c) 0 (set_nth c CHeld (conns s)) = count_live SAccept 0 (conns s)).
+  { pose proof (count_live_release (SGot c) c eq_refl (set_nth c CHeld (conns s)) 0) as E.
+    simpl Nat.leb in E. rewrite Nat.sub_0_r, nth_set_nth_eq in E by auto. simpl in E.
+    rewrite (count_live_holder SNone SAccept) in E by reflexivity.
+    pose proof (count_live_set SAccept CHeld (conns s) c 0 L) as E2. rewrite Hc in E2. simpl in E2. lia. }
+  constructor; unfold live, no_open_cur; fields; auto; try discriminate; try rewrite Hcl; auto.
+  - apply qinv_accept; auto. discriminate.
+  - apply hinv_accept with (p := SAccept); auto.
+  - intros j E. rewrite length_set_nth. auto.
+  - intros Hs j E. rewrite (Hshut Hs i eq_refl) in Eo. discriminate.
+  - rewrite length_set_nth. auto.
+  - eapply late_mono; [exact Hlate|]. apply refused_set. rewrite Hc. discriminate.
+Qed.
+
+Lemma Inv_acceptclosed : forall s s', Inv s -> lstep s LAcceptClosed = Some s' -> Inv s'.
+Proof.
+  intros s s' HI H. simpl in H. destruct (serve s) eqn:Es; try discriminate.
+  assert (Hs' : s' = upd_serve s SAcceptErr).
+  { destruct (cur_obj s) as [o|]; [destruct (lo_open o); [discriminate|]|]; inversion H; reflexivity. }
+  subst s'. unfold upd_serve. pose proof HI as HI'. destruct HI' as [_ _ _ _ Hlis _ _ _ _ Hcnt Hwg _].
+  rewrite Es in *. apply Inv_pc; auto; rewrite ?Es; simpl; auto; try discriminate.
+Qed.
+
+Lemma Inv_expire : forall s s', Inv s -> lstep s LExpire = Some s' -> Inv s'.
+Proof.
+  intros s s' HI H. simpl in H. destruct (serve s) eqn:Es; try discriminate.
+  assert (Hs' : s' = upd_serve s STimeout).
+  { destruct (cur_obj s) as [o|]; [|discriminate]. destruct (tmo s && lo_open o); inversion H; reflexivity. }
+  subst s'. unfold upd_serve. pose proof HI as HI'. destruct HI' as [_ _ _ _ Hlis _ _ _ _ Hcnt Hwg _].
+  rewrite Es in *. apply Inv_pc; auto; rewrite ?Es; simpl; auto; try discriminate.
+Qed.
+
+Lemma Inv_spawn : forall s c, Inv s -> serve s = SSpawn c ->
+  Inv (mkL (running s) (listener s) (objs s) (conncounter s) (wg s) SLoopHead (tmo s)
+           (set_nth c (match conn_st s c with CEnded => CEnded | _ => CServed end) (conns s))
+           (late s) (shut s) (result s) (accepted_idle s)).
+Proof.
+  intros s c HI Es. unfold conn_st.
+  destruct HI as [Hq Hh Hlt Hrun Hlis Hnolis Hshut Hlen Hlate Hcnt Hwg Hidle].
+  unfold live, no_open_cur in *. rewrite Es in *.
+  set (x := match nth c (conns s) CRefused with CEnded => CEnded | _ => CServed end).
+  assert (Hold : nth c (conns s) CRefused = CHeld \/ nth c (conns s) CRefused = CEnded).
+  { apply (h_held _ _ Hh). reflexivity. }
+  assert (L : c < length (conns s)).
+  { apply nth_lt_of_ne_default with (d := CRefused). destruct Hold as [E|E]; rewrite E; discriminate. }
+  assert (Hx : x <> CQueued /\ x <> CHeld).
+  { unfold x. destruct (nth c (conns s) CRefused); split; discriminate. }
+  assert (Hc : count_live SLoopHead 0 (set_nth c x (conns s)) = count_live (SSpawn c) 0 (conns s) + 1).
+  { pose proof (count_live_set SLoopHead x (conns s) c 0 L) as E. change (0 + c) with c in E.
+    rewrite (count_live_holder SLoopHead SNone (eq_refl) (conns s)) in E.
+    pose proof (count_live_release (SSpawn c) c eq_refl (conns s) 0) as E2.
+    simpl Nat.leb in E2. rewrite Nat.sub_0_r in E2.
+    unfold x in *. destruct Hold as [E1|E1]; rewrite E1 in *; simpl in E, E2; lia. }
+  constructor; unfold live, no_open_cur; fields; auto; try discriminate; try (rewrite Hc; simpl in *; lia).
+  - apply qinv_set; auto; [|apply Hx]. destruct Hold as [E|E]; rewrite E; discriminate.
+  - eapply hinv_spawn with (p := SSpawn c); eauto. apply Hx.
+  - rewrite length_set_nth. auto.
+  - eapply late_mono; [exact Hlate|]. apply refused_set. destruct Hold as [E|E]; rewrite E; discriminate.
+Qed.
+
+Lemma Inv_teardown : forall s r i, Inv s -> serve s = STeardown r -> listener s = Some i ->
+  Inv (mkL false None (set_nth i dobj (objs s)) (conncounter s) (wg s) (SWait r) (tmo s)
+           (drop_all (qof (objs s) i) (conns s)) (late s) (shut s) (result s) (accepted_idle s)).
+Proof.
+  intros s r i HI Es El.
+  destruct HI as [Hq Hh Hlt Hrun Hlis Hnolis Hshut Hlen Hlate Hcnt Hwg Hidle].
+  unfold live, no_open_cur in *. rewrite Es in *.
+  assert (Hqs : forall c, In c (qof (objs s) i) -> nth c (conns s) CRefused = CQueued).
+  { intros c Hc. eapply q_st; eauto. }
+  constructor; unfold live, no_open_cur; fields; auto; try discriminate.
+  - apply qinv_close; auto.
+  - apply hinv_drop_all; auto. eapply hinv_pc; [|exact Hh]. reflexivity.
+  - rewrite length_drop_all. auto.
+  - eapply late_mono; [exact Hlate|]. apply refused_drop_all. auto.
+  - rewrite count_live_drop_all; auto. rewrite (count_live_holder (SWait r) (STeardown r)) by reflexivity. exact Hcnt.
+  - rewrite count_live_drop_all; auto. rewrite (count_live_holder (SWait r) (STeardown r)) by reflexivity. exact Hwg.
+Qed.
+
+Ltac pc_step HI Es :=
+  unfold upd_serve;
+  let Hlis := fresh "Hlis" in let Hcnt := fresh "Hcnt" in let Hwg := fresh "Hwg" in
+  let Hrun := fresh "Hrun" in let Hnolis := fresh "Hnolis" in
+  pose proof (i_lis _ HI) as Hlis; pose proof (i_cnt _ HI) as Hcnt; pose proof (i_wg _ HI) as Hwg;
+  pose proof (i_run _ HI) as Hrun; pose proof (i_nolis _ HI) as Hnolis;
+  rewrite Es in Hlis, Hcnt, Hwg, Hrun, Hnolis; simpl in Hlis, Hcnt, Hwg, Hrun, Hnolis;
+  apply Inv_pc; auto; rewrite ?Es; simpl; auto; try discriminate; try lia.
+
+Lemma Inv_serve : forall s s', Inv s -> lstep s LServe = Some s' -> Inv s'.
+Proof.
+  intros s s' HI H. simpl in H. destruct (serve s) eqn:Es; try discriminate.
+  - (* SEnter *)
+    destruct (listener s) as [i|] eqn:El; inversion H; subst s'; clear H; try rewrite <- El.
+    + pc_step HI Es. congruence.
+    + pc_step HI Es.
+  - (* SSetRunning *)
+    inversion H; subst s'; clear H. pc_step HI Es.
+  - (* SLoopHead *)
+    destruct (running s) eqn:Er; inversion H; subst s'; clear H; try rewrite <- Er.
+    + destruct (tmo s); pc_step HI Es.
+    + pc_step HI Es.
+  - (* SRefresh *)
+    unfold cur_obj in H. destruct (listener s) as [i|] eqn:El.
+    + destruct (lo_open (get_obj s i)); inversion H; subst s'; clear H; try rewrite <- El; pc_step HI Es.
+    + inversion H; subst s'; clear H; try rewrite <- El; pc_step HI Es.
+  - (* STimeout *)
+    destruct (Nat.eqb (conncounter s) 0); inversion H; subst s'; clear H; pc_step HI Es.
+  - (* SAcceptErr *)
+    destruct (running s) eqn:Er; inversion H; subst s'; clear H; try rewrite <- Er; pc_step HI Es.
+  - (* SGot *)
+    inversion H; subst s'; clear H. pc_step HI Es.
+  - (* SAdd *)
+    inversion H; subst s'; clear H. pc_step HI Es.
+  - (* SSpawn *)
+    inversion H; subst s'; clear H. apply Inv_spawn; auto.
+  - (* STeardown *)
+    destruct (listener s) as [i|] eqn:El.
+    + change (close_obj s i) with (set_nth i dobj (objs s), drop_all (qof (objs s) i) (conns s)) in H.
+      cbv beta iota in H. inversion H; subst s'; clear H. apply Inv_teardown; auto.
+    + inversion H; subst s'; clear H. try rewrite <- El. pc_step HI Es.
+  - (* SWait *)
+    destruct (Nat.eqb_spec (wg s) 0) as [E|E]; [|discriminate].
+    inversion H; subst s'; clear H. pc_step HI Es.
+Qed.
+
+Lemma Inv_step : forall s l s', Inv s -> ok_label s l -> lstep s l = Some s' -> Inv s'.
+Proof.
+  intros s l s' HI Hok H. destruct l.
+  - eapply Inv_bind; eauto.
+  - eapply Inv_startdo; eauto.
+  - eapply Inv_startlisten; eauto.
+  - eapply Inv_serve; eauto.
+  - eapply Inv_acceptconn; eauto.
+  - eapply Inv_acceptclosed; eauto.
+  - eapply Inv_expire; eauto.
+  - eapply Inv_shutdown; eauto.
+  - eapply Inv_connect; eauto.
+  - eapply Inv_end; eauto.
+  - eapply Inv_exit; eauto.
+Qed.
+
+Theorem wreach_Inv : forall s, wreach s -> Inv s.
+Proof.
+  intros s H. induction H as [|s l s' Hw IH Hok Hs].
+  - apply Inv_init.
+  - eapply Inv_step; eauto.
+Qed.
+Print Assumptions wreach_Inv.
+
+(* ================= the invariants, as stated ================= *)
+
+(* I1: every accepted connection is accounted for exactly once *)
+Theorem I1_counter : forall s, wreach s -> conncounter s = live s + inflight_counter (serve s).
+Proof. intros s H. apply i_cnt. apply wreach_Inv. auto. Qed.
+Print Assumptions I1_counter.
+
+Theorem I1_wg : forall s, wreach s -> wg s = live s + inflight_wg (serve s).
+Proof. intros s H. apply i_wg. apply wreach_Inv. auto. Qed.
+Print Assumptions I1_wg.
+
+(* a connection that was refused, dropped, or whose handler exited never moves again
+   (no hypothesis on s needed) *)
+Definition final_cst (st : cst) : bool :=
+  match st with CRefused | CDropped | CGone => true | _ => false end.
+
+Lemma drop_all_final : forall q cs c, final_cst (nth c cs CRefused) = true ->
+  final_cst (nth c (drop_all q cs) CRefused) = true.
+Proof.
+  intro q. induction q as [|a q IH]; intros cs c H; [exact H|].
+  unfold drop_all in *. simpl. apply IH. rewrite nth_set_nth.
+  destruct (Nat.eqb a c); auto. destruct (Nat.ltb a (length cs)); auto.
+Qed.
+
+(* how one step changes the connection table *)
+Definition conns_change (s s' : lstate) : Prop :=
+  conns s' = conns s
+  \/ (exists x, conns s' = conns s ++ [x])
+  \/ (exists c x, conns s' = set_nth c x (conns s) /\ final_cst (conn_st s c) = false)
+  \/ (exists i, conns s' = drop_all (qof (objs s) i) (conns s)).
+
+Lemma conns_step : forall s l s', Inv s -> lstep s l = Some s' -> conns_change s s'.
+Proof.
+  intros s l s' HI H. unfold conns_change. destruct l; simpl in H.
+  - destruct (running s); [|destruct ok]; inversion H; subst; auto.
+  - destruct (serve s); inversion H; subst; auto.
+  - destruct (serve s); try discriminate. destruct (running s); [|destruct ok]; inversion H; subst; auto.
+  - destruct (serve s) eqn:Es; try discriminate; unfold upd_serve, cur_obj in H.
+    + destruct (listener s); inversion H; subst; auto.
+    + inversion H; subst; auto.
+    + destruct (running s); inversion H; subst; auto.
+    + destruct (listener s); [destruct (lo_open _)|]; inversion H; subst; auto.
+    + destruct (Nat.eqb _ _); inversion H; subst; auto.
+    + destruct (running s); inversion H; subst; auto.
+    + inversion H; subst; auto.
+    + inversion H; subst; auto.
+    + inversion H; subst; fields. right. right. left. eexists. eexists. split; [reflexivity|].
+      pose proof (h_held _ _ (i_h _ HI) c) as Hc. rewrite Es in Hc. unfold conn_st.
+      destruct (Hc eq_refl) as [E|E]; rewrite E; reflexivity.
+    + destruct (listener s) as [i|].
+      * change (close_obj s i) with (set_nth i dobj (objs s), drop_all (qof (objs s) i) (conns s)) in H.
+        cbv beta iota in H. inversion H; subst; fields. right. right. right. exists i. reflexivity.
+      * inversion H; subst; auto.
+    + destruct (Nat.eqb _ _); inversion H; subst; auto.
+  - destruct (serve s); try discriminate. destruct (listener s) as [i|] eqn:El; try discriminate.
+    destruct (lo_open (get_obj s i)) eqn:Eo; try discriminate.
+    destruct (lo_queue (get_obj s i)) as [|c q] eqn:Eq; try discriminate.
+    inversion H; subst; fields. right. right. left. exists c, CHeld. split; auto.
+    unfold conn_st. rewrite (q_st _ _ (i_q _ HI) i c); auto.
+    change (qof (objs s) i) with (lo_queue (get_obj s i)). rewrite Eq. left; auto.
+  - destruct (serve s); try discriminate. unfold upd_serve in H.
+    destruct (cur_obj s) as [o|]; [destruct (lo_open o); [discriminate|]|]; inversion H; subst; auto.
+  - destruct (serve s); try discriminate. unfold upd_serve in H.
+    destruct (cur_obj s) as [o|]; [|discriminate]. destruct (tmo s && lo_open o); inversion H; subst; auto.
+  - destruct (listener s) as [i|].
+    + change (close_obj s i) with (set_nth i dobj (objs s), drop_all (qof (objs s) i) (conns s)) in H.
+      cbv beta iota in H. inversion H; subst; fields. right. right. right. exists i. reflexivity.
+    + inversion H; subst; auto.
+  - destruct (listener s) as [i|]; [destruct (lo_open _)|]; inversion H; subst; fields; right; left; eauto.
+  - destruct (conn_st s c) eqn:E; try discriminate; inversion H; subst; fields;
+      right; right; left; exists c, CEnded; rewrite E; auto.
+  - apply handler_exit_inv in H. destruct H as [E [_ Hs']]. subst s'. fields.
+    right. right. left. exists c, CGone. rewrite E. auto.
+Qed.
+
+(* each handler exits exactly once: a refused / dropped / gone connection never moves again *)
+Theorem final_stable : forall s l s' c, wreach s -> lstep s l = Some s' ->
+  c < length (conns s) -> final_cst (conn_st s c) = true -> conn_st s' c = conn_st s c.
+Proof.
+  intros s l s' c Hw H Lc Hf. pose proof (wreach_Inv _ Hw) as HI.
+  destruct (conns_step _ _ _ HI H) as [E|[[x E]|[[c' [x [E Hc']]]|[i E]]]]; unfold conn_st in *; rewrite E.
+  - reflexivity.
+  - apply app_nth1. auto.
+  - apply nth_set_nth_neq. intro; subst c'. congruence.
+  - apply nth_drop_all_notin. intro Hi. apply (q_st _ _ (i_q _ HI)) in Hi. rewrite Hi in Hf. discriminate.
+Qed.
+Print Assumptions final_stable.
+
+Theorem listener_in_range : forall s i, wreach s -> listener s = Some i -> i < length (objs s).
+Proof. intros s i H. apply i_lt. apply wreach_Inv. auto. Qed.
+Print Assumptions listener_in_range.
+
+(* a backlog entry is a CQueued connection; backlogs are duplicate-free and pairwise disjoint *)
+Theorem queue_sound : forall s i c, wreach s -> In c (lo_queue (get_obj s i)) ->
+  conn_st s c = CQueued /\ lo_open (get_obj s i) = true /\ NoDup (lo_queue (get_obj s i)) /\
+  (forall j, In c (lo_queue (get_obj s j)) -> j = i).
+Proof.
+  intros s i c Hw Hc. pose proof (i_q _ (wreach_Inv _ Hw)) as Hq. repeat split.
+  - apply (q_st _ _ Hq i c Hc).
+  - destruct (lo_open (get_obj s i)) eqn:E; auto.
+    pose proof (q_closed _ _ Hq i E) as E2. change (qof (objs s) i) with (lo_queue (get_obj s i)) in E2.
+    rewrite E2 in Hc. contradiction.
+  - apply (q_nodup _ _ Hq i).
+  - intros j Hj. apply (q_disj _ _ Hq j i c Hj Hc).
+Qed.
+Print Assumptions queue_sound.
+
+(* a CQueued connection is in the backlog of exactly one listener object, and that object is open *)
+Theorem queued_in_open : forall s c, wreach s -> conn_st s c = CQueued ->
+  exists i, In c (lo_queue (get_obj s i)) /\ lo_open (get_obj s i) = true /\
+            forall j, In c (lo_queue (get_obj s j)) -> j = i.
+Proof.
+  intros s c Hw Hc. destruct (q_ex _ _ (i_q _ (wreach_Inv _ Hw)) c Hc) as [i Hi].
+  exists i. destruct (queue_sound s i c Hw Hi) as [_ [Ho [_ Hu]]]. auto.
+Qed.
+Print Assumptions queued_in_open.
+
+Theorem closed_queue_empty : forall s i, wreach s -> lo_open (get_obj s i) = false -> lo_queue (get_obj s i) = [].
+Proof. intros s i Hw. apply (q_closed _ _ (i_q _ (wreach_Inv _ Hw)) i). Qed.
+Print Assumptions closed_queue_empty.
+
+(* the connection the serving call has in hand *)
+Theorem in_hand : forall s c, wreach s ->
+  (holder (serve s) = Some c -> conn_st s c = CHeld \/ conn_st s c = CEnded) /\
+  (conn_st s c = CHeld -> holder (serve s) = Some c).
+Proof.
+  intros s c Hw. pose proof (i_h _ (wreach_Inv _ Hw)) as Hh. split.
+  - apply (h_held _ _ Hh).
+  - apply (h_only _ _ Hh).
+Qed.
+Print Assumptions in_hand.
+
+Lemma may_run_not_none : forall p, may_run p = true -> p <> SNone /\ needs_lis p = true.
+Proof. intros p H. destruct p; simpl in *; try discriminate; split; auto; discriminate. Qed.
+
+(* running implies a serving call in its loop (or about to tear down) on a bound listener *)
+Theorem running_serving : forall s, wreach s -> running s = true ->
+  may_run (serve s) = true /\ serve s <> SNone /\ exists i, listener s = Some i.
+Proof.
+  intros s Hw Hr. pose proof (wreach_Inv _ Hw) as HI. pose proof (i_run _ HI Hr) as Hm.
+  destruct (may_run_not_none _ Hm) as [Hn Hl]. repeat split; auto.
+  pose proof (i_lis _ HI Hl) as E. destruct (listener s) as [i|]; [eauto|congruence].
+Qed.
+Print Assumptions running_serving.
+
+Theorem idle_not_running : forall s, wreach s -> serve s = SNone -> running s = false.
+Proof.
+  intros s Hw Es. destruct (running s) eqn:Er; auto.
+  destruct (running_serving s Hw Er) as [_ [Hn _]]. congruence.
+Qed.
+Print Assumptions idle_not_running.
+
+(* the serving call keeps its listener: between SSetRunning and the teardown s.listener is set *)
+Theorem serving_has_listener : forall s, wreach s -> needs_lis (serve s) = true -> exists i, listener s = Some i.
+Proof.
+  intros s Hw Hl. pose proof (i_lis _ (wreach_Inv _ Hw) Hl) as E.
+  destruct (listener s) as [i|]; [eauto|congruence].
+Qed.
+Print Assumptions serving_has_listener.
+
+Theorem shut_closed : forall s, wreach s -> shut s = true ->
+  match cur_obj s with Some o => lo_open o = false | None => True end.
+Proof.
+  intros s Hw Hs. pose proof (i_shut _ (wreach_Inv _ Hw) Hs) as H. unfold no_open_cur, cur_obj in *.
+  destruct (listener s) as [i|]; auto. apply (H i eq_refl).
+Qed.
+Print Assumptions shut_closed.
+
+Theorem no_late_service : forall s c, wreach s -> nth c (late s) false = true ->
+  match conn_st s c with CRefused => True | _ => False end.
+Proof.
+  intros s c Hw H. unfold conn_st. rewrite (i_late _ (wreach_Inv _ Hw) c H). exact I.
+Qed.
+Print Assumptions no_late_service.
+
+Theorem late_length : forall s, wreach s -> length (late s) = length (conns s).
+Proof. intros s Hw. apply i_len. apply wreach_Inv. auto. Qed.
+
+Theorem idle_no_handlers : forall s, wreach s -> serve s = SNone -> live s = 0.
+Proof. intros s Hw. apply i_idle. apply wreach_Inv. auto. Qed.
+Print Assumptions idle_no_handlers.
+
+(* ---------- executable well-sequenced runs (to exhibit reachable states) ---------- *)
+Definition is_none_pc (p : spc) : bool := match p with SNone => true | _ => false end.
+Definition ok_labelb (s : lstate) (l : label) : bool :=
+  match l with LBind _ => is_none_pc (serve s) || running s | _ => true end.
+
+Lemma ok_labelb_ok : forall s l, ok_labelb s l = true -> ok_label s l.
+Proof.
+  intros s l H. destruct l; simpl in *; auto. apply orb_true_iff in H. destruct H as [H|H]; auto.
+  left. destruct (serve s); simpl in H; try discriminate; auto.
+Qed.
+
+Fixpoint wrun (s : lstate) (ls : list label) : option lstate :=
+  match ls with
+  | [] => Some s
+  | l :: r => if ok_labelb s l then match lstep s l with Some s' => wrun s' r | None => None end else None
+  end.
+
+Lemma wrun_run : forall ls s s', wrun s ls = Some s' -> run s ls = Some s'.
+Proof.
+  intro ls. induction ls as [|l r IH]; intros s s' H; simpl in *; auto.
+  destruct (ok_labelb s l); try discriminate. destruct (lstep s l); try discriminate. auto.
+Qed.
+
+Lemma wrun_wreach : forall ls s s', wreach s -> wrun s ls = Some s' -> wreach s'.
+Proof.
+  intro ls. induction ls as [|l r IH]; intros s s' Hw H; simpl in H.
+  - inversion H; subst; auto.
+  - destruct (ok_labelb s l) eqn:Eo; try discriminate. destruct (lstep s l) as [s1|] eqn:E1; try discriminate.
+    apply (IH s1); auto. eapply wr_step; eauto. apply ok_labelb_ok; auto.
+Qed.
+
+(* bind, start, connect, accept, spawn, shutdown, end, exit, return *)
+Definition demo_trace : list label :=
+  [LBind true; LStartDoListen false; LServe; LServe; LServe; LConnect; LAcceptConn; LServe; LServe; LServe;
+   LServe; LShutdown; LAcceptClosed; LServe; LServe; LEnd 0; LHandlerExit 0; LServe].
+
+Example demo_run :
+  wrun l_init demo_trace
+  = Some (mkL false None [mkLobj false []] 0 0 SNone false [CGone] [false] true (Some RNilRet) true).
+Proof. vm_compute. reflexivity. Qed.
+
+Example demo_mid : (* after the spawn: one live handler, counters 1/1 *)
+  option_map (fun s => (serve s, conncounter s, wg s, live s, conns s)) (wrun l_init (firstn 10 demo_trace))
+  = Some (SLoopHead, 1, 1, 1, [CServed]).
+Proof. vm_compute. reflexivity. Qed.
+
+Example demo_reach : exists s, wreach s /\ serve s = SNone /\ result s = Some RNilRet /\ shut s = true.
+Proof.
+  eexists. split; [eapply wrun_wreach; [apply wr_init|apply demo_run]|]. simpl. auto.
+Qed.
+
+(* a late connection is refused *)
+Example demo_late :
+  option_map (fun s => (conns s, late s)) (wrun l_init [LBind true; LStartDoListen false; LServe; LServe; LServe; LShutdown; LConnect])
+  = Some ([CRefused], [true]).
+Proof. vm_compute. reflexivity. Qed.
